@@ -56,6 +56,11 @@ type scanner struct {
 	fn    string
 	m     *method
 	evict *string
+	// read-locked regions (pool.mu.RLock held, not Lock)
+	read      bool
+	hasRead   bool
+	callsRead map[string]bool
+	writeRead bool
 }
 
 func (s *scanner) isMu(e ast.Expr, names ...string) bool {
@@ -116,6 +121,14 @@ func (s *scanner) visit(n ast.Node, held bool) {
 		case *ast.GoStmt:
 			return false // a spawn is not a call made under the caller's lock
 		case *ast.CallExpr:
+			if s.read {
+				switch f := y.Fun.(type) {
+				case *ast.SelectorExpr:
+					s.callsRead[f.Sel.Name] = true
+				case *ast.Ident:
+					s.callsRead[f.Name] = true
+				}
+			}
 			if se, ok := y.Fun.(*ast.SelectorExpr); ok {
 				if id, ok := se.X.(*ast.Ident); ok && id.Name == s.recv {
 					if held {
@@ -139,22 +152,181 @@ func (s *scanner) visit(n ast.Node, held bool) {
 }
 
 func (s *scanner) walk(list []ast.Stmt, held bool) {
+	read := s.read
+	defer func() { s.read = read }()
 	for _, st := range list {
 		if es, ok := st.(*ast.ExprStmt); ok {
-			if s.isMu(es.X, "Lock", "RLock") {
-				held = true
+			if s.isMu(es.X, "Lock") {
+				held, s.read = true, false
+				continue
+			}
+			if s.isMu(es.X, "RLock") {
+				held, s.read, s.hasRead = true, true, true
 				continue
 			}
 			if s.isMu(es.X, "Unlock", "RUnlock") {
-				held = false
+				held, s.read = false, false
 				continue
 			}
+		}
+		if s.read && directWrite(st, s.recv) {
+			s.writeRead = true
 		}
 		if ds, ok := st.(*ast.DeferStmt); ok && s.isMu(ds.Call, "Unlock", "RUnlock") {
 			continue
 		}
 		s.visit(st, held)
 	}
+}
+
+// rootIdent strips selectors, indexes, stars, parens, & and single-argument
+// conversions and returns the identifier an expression is rooted at.
+func rootIdent(e ast.Expr) (string, bool) {
+	depth := 0
+	for {
+		switch x := e.(type) {
+		case *ast.Ident:
+			return x.Name, depth > 0
+		case *ast.SelectorExpr:
+			e = x.X
+		case *ast.IndexExpr:
+			e = x.X
+		case *ast.StarExpr:
+			e = x.X
+		case *ast.ParenExpr:
+			e = x.X
+			continue
+		case *ast.UnaryExpr:
+			e = x.X
+			continue
+		case *ast.CallExpr:
+			if len(x.Args) != 1 {
+				return "", false
+			}
+			e = x.Args[0] // conversion such as types.TxByNonce(m.cache)
+			continue
+		default:
+			return "", false
+		}
+		depth++
+	}
+}
+
+var mutators = map[string]bool{"heap.Push": true, "heap.Pop": true, "heap.Init": true, "heap.Remove": true, "heap.Fix": true,
+	"sort.Sort": true, "sort.Stable": true, "sort.Slice": true}
+
+// directWrite: does the node assign to / delete from / re-order something that
+// hangs off the receiver (a field, a map entry, the slice behind it)?
+func directWrite(n ast.Node, recv string) bool {
+	found := false
+	rooted := func(e ast.Expr, needPath bool) bool {
+		id, path := rootIdent(e)
+		return id == recv && (path || !needPath)
+	}
+	ast.Inspect(n, func(x ast.Node) bool {
+		switch y := x.(type) {
+		case *ast.FuncLit:
+			return true
+		case *ast.AssignStmt:
+			for _, l := range y.Lhs {
+				if rooted(l, true) {
+					found = true
+				}
+			}
+		case *ast.IncDecStmt:
+			if rooted(y.X, true) {
+				found = true
+			}
+		case *ast.CallExpr:
+			if id, ok := y.Fun.(*ast.Ident); ok && id.Name == "delete" && len(y.Args) > 0 && rooted(y.Args[0], true) {
+				found = true
+			}
+			if se, ok := y.Fun.(*ast.SelectorExpr); ok {
+				if pk, ok := se.X.(*ast.Ident); ok && mutators[pk.Name+"."+se.Sel.Name] && len(y.Args) > 0 && rooted(y.Args[0], false) {
+					found = true
+				}
+			}
+		}
+		return true
+	})
+	return found
+}
+
+// funcInfo: per bare method/function name (merged over the receiver types of
+// the three files, i.e. calls are resolved by name - an over-approximation):
+// does some definition write its receiver's state without holding the
+// receiver's own lock, and which names does it call.
+type funcInfo struct {
+	writes bool
+	calls  map[string]bool
+	defs   []string
+}
+
+func writeTable(repo string) map[string]*funcInfo {
+	out := map[string]*funcInfo{}
+	for _, file := range []string{"tx_pool.go", "tx_list.go", "tx_noncer.go"} {
+		fset := token.NewFileSet()
+		f, err := parser.ParseFile(fset, filepath.Join(repo, "core", file), nil, 0)
+		if err != nil {
+			fmt.Println("cannot parse", file, ":", err)
+			os.Exit(1)
+		}
+		for _, d := range f.Decls {
+			fd, ok := d.(*ast.FuncDecl)
+			if !ok || fd.Body == nil {
+				continue
+			}
+			recv, typ := "", ""
+			if fd.Recv != nil && len(fd.Recv.List) == 1 && len(fd.Recv.List[0].Names) == 1 {
+				recv = fd.Recv.List[0].Names[0].Name
+				t := fd.Recv.List[0].Type
+				if st, ok := t.(*ast.StarExpr); ok {
+					t = st.X
+				}
+				if id, ok := t.(*ast.Ident); ok {
+					typ = id.Name
+				}
+			}
+			info := out[fd.Name.Name]
+			if info == nil {
+				info = &funcInfo{calls: map[string]bool{}}
+				out[fd.Name.Name] = info
+			}
+			info.defs = append(info.defs, typ+"."+fd.Name.Name)
+			// a type with its own mutex (txLookup, txNoncer) synchronises its methods itself
+			selfLocked := false
+			ast.Inspect(fd.Body, func(n ast.Node) bool {
+				if ce, ok := n.(*ast.CallExpr); ok {
+					if se, ok := ce.Fun.(*ast.SelectorExpr); ok && (se.Sel.Name == "Lock" || se.Sel.Name == "RLock") {
+						if in, ok := se.X.(*ast.SelectorExpr); ok && in.Sel.Name == "lock" {
+							if id, ok := in.X.(*ast.Ident); ok && id.Name == recv {
+								selfLocked = true
+							}
+						}
+					}
+				}
+				return true
+			})
+			if selfLocked || recv == "" {
+				continue
+			}
+			if directWrite(fd.Body, recv) {
+				info.writes = true
+			}
+			ast.Inspect(fd.Body, func(n ast.Node) bool {
+				if ce, ok := n.(*ast.CallExpr); ok {
+					switch f := ce.Fun.(type) {
+					case *ast.SelectorExpr:
+						info.calls[f.Sel.Name] = true
+					case *ast.Ident:
+						info.calls[f.Name] = true
+					}
+				}
+				return true
+			})
+		}
+	}
+	return out
 }
 
 func locksCmd(out string) {
@@ -169,6 +341,12 @@ func locksCmd(out string) {
 		os.Exit(1)
 	}
 	var ms []*method
+	type readRegion struct {
+		name  string
+		write bool
+		calls map[string]bool
+	}
+	var regions []readRegion
 	goEntry := map[string]bool{}
 	evict := ""
 	for _, d := range f.Decls {
@@ -196,9 +374,12 @@ func locksCmd(out string) {
 			continue
 		}
 		m := &method{name: fd.Name.Name, fieldsUnlocked: map[string]bool{}, fieldsLocked: map[string]bool{}, callsUnlocked: map[string]bool{}, callsLocked: map[string]bool{}}
-		sc := &scanner{fset: fset, recv: recv, fn: fd.Name.Name, m: m, evict: &evict}
+		sc := &scanner{fset: fset, recv: recv, fn: fd.Name.Name, m: m, evict: &evict, callsRead: map[string]bool{}}
 		sc.walk(fd.Body.List, false)
 		ms = append(ms, m)
+		if sc.hasRead {
+			regions = append(regions, readRegion{fd.Name.Name, sc.writeRead, sc.callsRead})
+		}
 	}
 	if len(ms) < 20 {
 		fmt.Println("lock inventory: found only", len(ms), "TxPool methods - source layout not understood")
@@ -217,6 +398,46 @@ func locksCmd(out string) {
 		}
 		sb.WriteString(fmt.Sprintf("  (%s, %s, %s, %s, %s, %s, %s)%s\n", coqStr(m.name), vf.Bool(ast.IsExported(m.name)), vf.Bool(goEntry[m.name]),
 			coqStrs(m.fieldsUnlocked), coqStrs(m.callsUnlocked), coqStrs(m.fieldsLocked), coqStrs(m.callsLocked), sep))
+	}
+	sb.WriteString("].\n")
+	// write analysis (tx_pool.go, tx_list.go, tx_noncer.go) and the regions that hold only the read lock
+	wt := writeTable(repo)
+	var names []string
+	for n := range wt {
+		names = append(names, n)
+	}
+	sort.Strings(names)
+	sb.WriteString("(* per method/function name of tx_pool.go, tx_list.go, tx_noncer.go (calls are resolved by name, merged over\n   the receiver types): does a definition write state hanging off its receiver (field assignment, map write/delete,\n   heap or sort operation - lazy caches included) without holding the receiver's own lock; names it calls *)\n")
+	sb.WriteString("Definition c20_funcs : list (string * bool * list string) := [\n")
+	for i, n := range names {
+		sep := ";"
+		if i == len(names)-1 {
+			sep = ""
+		}
+		known := map[string]bool{}
+		for c := range wt[n].calls {
+			if _, ok := wt[c]; ok {
+				known[c] = true
+			}
+		}
+		sb.WriteString(fmt.Sprintf("  (%s, %s, %s)%s (* %s *)\n", coqStr(n), vf.Bool(wt[n].writes), coqStrs(known), sep, strings.Join(wt[n].defs, ", ")))
+	}
+	sb.WriteString("].\n")
+	sort.Slice(regions, func(i, j int) bool { return regions[i].name < regions[j].name })
+	sb.WriteString("(* TxPool methods with a region that holds pool.mu.RLock only: writes a pool field directly there, names called there *)\n")
+	sb.WriteString("Definition c20_read_regions : list (string * bool * list string) := [\n")
+	for i, r := range regions {
+		sep := ";"
+		if i == len(regions)-1 {
+			sep = ""
+		}
+		known := map[string]bool{}
+		for c := range r.calls {
+			if _, ok := wt[c]; ok {
+				known[c] = true
+			}
+		}
+		sb.WriteString(fmt.Sprintf("  (%s, %s, %s)%s\n", coqStr(r.name), vf.Bool(r.write), coqStrs(known), sep))
 	}
 	sb.WriteString("].\n")
 	sb.WriteString(fmt.Sprintf("(* body of the eviction branch of TxPool.loop, as found: %s *)\n", strings.ReplaceAll(evict, "*)", "* )")))
